@@ -90,6 +90,7 @@ impl S2 {
         if mask & 16 != 0 {
             b = b.add_attribute::<VDef>();
         }
+        b = crate::k3::add_anchor_attrs(b, mask);
         S2 { map: b.build().unwrap(), mask, in_tx: false, tx_ops: vec![] }
     }
 
@@ -258,7 +259,12 @@ impl S2 {
                 }
                 stm(self.write_attr_tx(t, st, opt!(d(x)), None)).map(Self::term)
             }
-            _ => return crate::k2::tx_op(self, t, &tk),
+            _ => {
+                if let Some(r) = crate::k2::tx_op(self, t, &tk) {
+                    return Some(r);
+                }
+                return crate::k3::tx_op(self, t, &tk);
+            }
         })
     }
 
